@@ -38,6 +38,9 @@ def plan(tier, seed):
     for fam in ["basic", "plist", "pyobj", "xml", "csv", "file"]:
         specs.append({"stratum": f"family-{fam}", "family": fam, "n": per_f if fam != "file" else per_f // 3, "k": 0, "clean": True,
                       "all_options": fam in ("basic", "file")})
+    for k in range(2 if q else 8):
+        specs.append({"stratum": "json-deep-and-wide", "family": "json", "n": 15 if q else 100, "k": k, "clean": True, "deepwide": True,
+                      "case_timeout": 240, "shrink": False})
     specs.append({"stratum": "list-options-on-the-first-tree-only", "family": "json", "n": 600 if q else 8000, "k": 0, "clean": True,
                   "to_default": True})
     nsh = 4 if q else 8
